@@ -1,6 +1,7 @@
 import Tickit.Model.TermPen
 import Tickit.Model.TermSuspend
 import Tickit.Model.SgrStrict
+import Tickit.Model.SgrBuf
 import Tickit.Gen.TermBuf
 import Tickit.Driver.Common
 /-
@@ -14,6 +15,11 @@ import Tickit.Driver.Common
                    with it.  Configuration `g`: the harness's driver stands for the xterm driver, whose `pause` writes `ESC [ m`.
     print <word>   tickit_term_printf(tt, "%s", word): the text goes to the terminal as it is (x: `b=` its bytes; g: `t=` what the
                    driver's `print` was handed); not a pen request — the rendering attributes must stay what the logical pen asks for.
+    outbuf <n>     (x) tickit_term_set_output_buffer(tt, n);   flush   (x) tickit_term_flush(tt).  With a buffer the bytes of a
+                   request reach the terminal later (when the buffer is full, or on flush): the model sends every string through
+                   `Model/TermBuf.lean`'s `write_str`; the specification interprets what the output function RECEIVED, in the
+                   order it received it, and judges the terminal against the logical pen when the output has been flushed
+                   (while bytes may be pending the terminal lawfully lags behind).
   Model observation = what harness/sgr.c prints.  Specification verdict: the SGR interpreter of
   `Model/Sgr.lean` is run on the bytes the *implementation* emitted (configuration `x`), or on the
   bytes the modelled xterm encoder produces from the (delta, final) pens the *implementation* handed
@@ -93,6 +99,10 @@ structure DState where
   vt : VT := {}
   /-- does `tickit_term_resume` hand the cached pen to the driver's `chpen` (read from the source) -/
   resend : Bool := Tickit.Gen.TermBuf.term_resume_resends_pen
+  /-- model: the output buffer of term.c -/
+  tb : Tickit.TermBuf.State := Tickit.SgrBuf.init
+  /-- specification: has the program asked for an output buffer (`outbuf n`, n > 0)?  Then verdicts wait for `flush`. -/
+  buffered : Bool := false
 deriving Inhabited
 
 def showColr : Colr → String
@@ -103,22 +113,24 @@ def showColr : Colr → String
 def showSizePos : SizePos → String
   | .normal => "normal" | .small => "small" | .super => "superscript" | .sub => "subscript"
 
-/-- First field in which the terminal differs from what the logical pen asks for. -/
+/-- Every field in which the terminal differs from what the logical pen asks for (joined by `; also `): a verdict names ALL
+    of them, so that a difference a known finding explains cannot stand in for one it does not explain. -/
 def diffAttrs (have_ want : Attrs) : String :=
-  if have_.fg ≠ want.fg then s!"fg: terminal has {showColr have_.fg}, logical pen wants {showColr want.fg}"
-  else if have_.bg ≠ want.bg then s!"bg: terminal has {showColr have_.bg}, logical pen wants {showColr want.bg}"
-  else if have_.bold ≠ want.bold then s!"bold: terminal has {have_.bold}, logical pen wants {want.bold}"
-  else if have_.under ≠ want.under then s!"under: terminal has {have_.under}, logical pen wants {want.under}"
-  else if have_.faint ≠ want.faint then s!"faint: terminal has {have_.faint}, no pen attribute asks for it"
-  else if have_.italic ≠ want.italic then s!"italic: terminal has {have_.italic}, logical pen wants {want.italic}"
-  else if have_.reverse ≠ want.reverse then s!"reverse: terminal has {have_.reverse}, logical pen wants {want.reverse}"
-  else if have_.strike ≠ want.strike then s!"strike: terminal has {have_.strike}, logical pen wants {want.strike}"
-  else if have_.font ≠ want.font then s!"altfont: terminal has font {have_.font}, logical pen wants {want.font}"
-  else if have_.blink ≠ want.blink then s!"blink: terminal has {have_.blink}, logical pen wants {want.blink}"
-  else if have_.sizepos ≠ want.sizepos then
-    s!"sizepos: terminal has {showSizePos have_.sizepos}, logical pen wants {showSizePos want.sizepos}"
-  else if have_.junk ≠ want.junk then s!"{have_.junk} SGR parameter(s) not understood by the reference interpreter"
-  else ""
+  let ds : List String :=
+    (if have_.fg ≠ want.fg then [s!"fg: terminal has {showColr have_.fg}, logical pen wants {showColr want.fg}"] else []) ++
+    (if have_.bg ≠ want.bg then [s!"bg: terminal has {showColr have_.bg}, logical pen wants {showColr want.bg}"] else []) ++
+    (if have_.bold ≠ want.bold then [s!"bold: terminal has {have_.bold}, logical pen wants {want.bold}"] else []) ++
+    (if have_.under ≠ want.under then [s!"under: terminal has {have_.under}, logical pen wants {want.under}"] else []) ++
+    (if have_.faint ≠ want.faint then [s!"faint: terminal has {have_.faint}, no pen attribute asks for it"] else []) ++
+    (if have_.italic ≠ want.italic then [s!"italic: terminal has {have_.italic}, logical pen wants {want.italic}"] else []) ++
+    (if have_.reverse ≠ want.reverse then [s!"reverse: terminal has {have_.reverse}, logical pen wants {want.reverse}"] else []) ++
+    (if have_.strike ≠ want.strike then [s!"strike: terminal has {have_.strike}, logical pen wants {want.strike}"] else []) ++
+    (if have_.font ≠ want.font then [s!"altfont: terminal has font {have_.font}, logical pen wants {want.font}"] else []) ++
+    (if have_.blink ≠ want.blink then [s!"blink: terminal has {have_.blink}, logical pen wants {want.blink}"] else []) ++
+    (if have_.sizepos ≠ want.sizepos then
+      [s!"sizepos: terminal has {showSizePos have_.sizepos}, logical pen wants {showSizePos want.sizepos}"] else []) ++
+    (if have_.junk ≠ want.junk then [s!"{have_.junk} SGR parameter(s) not understood by the reference interpreter"] else [])
+  "; also ".intercalate ds
 
 /-- "change-pen overlays only the attributes present in its argument": first rendering attribute, absent from the argument
     `p` of a `chpen`, that the bytes of the request changed on the terminal. -/
@@ -184,18 +196,22 @@ def penOp (st : DState) (op : Op) (impl : String) : DState × String × String :
       if st.dead then ("ub after-overflow", true) else
       match xtermChpen st.cfg.caps st.cfg.cap delta cache' with
       | .overflow n => (s!"ub params-overflow needed={n} cap={st.cfg.cap}", true)
-      | .bytes bs => (s!"b={bytesHexN bs} pen={showPen cache'}", false)
+      | .bytes bs => (s!"b={bytesHexN (Tickit.SgrBuf.received (Tickit.SgrBuf.write (Tickit.SgrBuf.clear st.tb) bs))} pen={showPen cache'}", false)
+    let tb' : Tickit.TermBuf.State :=
+      match xtermChpen st.cfg.caps st.cfg.cap delta cache' with
+      | .bytes bs => if st.dead then st.tb else Tickit.SgrBuf.write (Tickit.SgrBuf.clear st.tb) bs
+      | _ => st.tb
     -- specification on the implementation's bytes
     let (vt', sv) : VT × String :=
       match (field? its "b").bind hexBytes? with
       | some bs =>
         let bytes := bs.map (·.toNat)
         let vt' := run bytes st.vt
-        (vt', specAfter st vt' l' bytes true chArg (strictDiff "the pen request" bytes st.vt true))
+        (vt', if st.buffered then "" else specAfter st vt' l' bytes true chArg (strictDiff "the pen request" bytes st.vt true))
       | none =>
         (st.vt, if impl.startsWith "CRASH" then s!"the implementation aborted under the sanitizers ({impl})"
                 else s!"no bytes to interpret: implementation said '{impl}'")
-    ({ st with cache := cache', dead := dead', logical := l', vt := vt' }, mobs, sv)
+    ({ st with cache := cache', dead := dead', logical := l', vt := vt', tb := tb' }, mobs, sv)
   else
     let mobs := s!"n=1 d={showPen delta} f={showPen cache'} pen={showPen cache'}"
     let (vt', sv) : VT × String :=
@@ -218,20 +234,31 @@ def suspendOp (st : DState) (impl : String) : DState × String × String :=
                else s!"nothing to interpret: implementation said '{impl}'"
   let pre (s : String) : String := if s = "" then "" else "after pause + resume: " ++ s
   if st.mode = "x" then
+    -- tickit_term_pause: the driver's strings, then (read from the source) a flush; tickit_term_resume likewise
+    let tb1 :=
+      let t := Tickit.SgrBuf.write (Tickit.SgrBuf.clear st.tb) xtermPauseBytes
+      if Tickit.Gen.TermBuf.term_pause_flushes then Tickit.TermBuf.flush t else t
+    let resumed (bs : List Nat) : Tickit.TermBuf.State :=
+      let t := Tickit.SgrBuf.write (Tickit.SgrBuf.clear tb1) (xtermResumeBytes ++ bs)
+      if Tickit.Gen.TermBuf.term_resume_flushes then Tickit.TermBuf.flush t else t
     let (mobs, dead') : String × Bool :=
       if st.dead then ("ub after-overflow", true) else
       match resumeChpen st.cfg.caps st.cfg.cap st.resend st.cache with
       | .overflow n => (s!"ub params-overflow needed={n} cap={st.cfg.cap}", true)
-      | .bytes bs => (s!"p={bytesHexN xtermPauseBytes} b={bytesHexN (xtermResumeBytes ++ bs)} pen={showPen st.cache}", false)
+      | .bytes bs => (s!"p={bytesHexN (Tickit.SgrBuf.received tb1)} b={bytesHexN (Tickit.SgrBuf.received (resumed bs))} pen={showPen st.cache}", false)
+    let tb' : Tickit.TermBuf.State :=
+      match resumeChpen st.cfg.caps st.cfg.cap st.resend st.cache with
+      | .bytes bs => if st.dead then st.tb else resumed bs
+      | _ => st.tb
     let (vt', sv) : VT × String :=
       match (field? its "p").bind hexBytes?, (field? its "b").bind hexBytes? with
       | some ps, some bs =>
         let bytes := bs.map (·.toNat)
         let pbytes := ps.map (·.toNat)
         let vt' := run bytes (run pbytes st.vt)
-        (vt', pre (specAfter st vt' st.logical bytes false none (strictDiff "pause + resume" (pbytes ++ bytes) st.vt false)))
+        (vt', if st.buffered then "" else pre (specAfter st vt' st.logical bytes false none (strictDiff "pause + resume" (pbytes ++ bytes) st.vt false)))
       | _, _ => (st.vt, crash)
-    ({ st with dead := dead', vt := vt' }, mobs, sv)
+    ({ st with dead := dead', vt := vt', tb := tb' }, mobs, sv)
   else
     let mobs :=
       if st.resend then s!"pause=1 resume=1 order=prc n=1 d={showPen st.cache} f={showPen st.cache} pen={showPen st.cache}"
@@ -252,20 +279,46 @@ def suspendOp (st : DState) (impl : String) : DState × String × String :=
       | none => (st.vt, crash)
     ({ st with vt := vt' }, mobs, sv)
 
+/-- `outbuf <n>`: tickit_term_set_output_buffer.  (Whatever was pending is dropped by the library: C11's business; the
+    generator asks for a buffer only when nothing is pending.) -/
+def outbufOp (st : DState) (n : Nat) (impl : String) : DState × String × String :=
+  let tb' := Tickit.TermBuf.setOutputBuffer (Tickit.SgrBuf.clear st.tb) n
+  let mobs := if st.dead then "ub after-overflow" else s!"b={bytesHexN []} pen={showPen st.cache}"
+  ({ st with tb := tb', buffered := n ≠ 0 }, mobs,
+    if impl.startsWith "CRASH" then s!"the implementation aborted under the sanitizers ({impl})" else "")
+
+/-- `flush`: tickit_term_flush.  Everything the requests so far have emitted is now with the terminal: the rendering
+    attributes in force there, as determined by the bytes received in the order they were received, must equal the
+    logical pen. -/
+def flushOp (st : DState) (impl : String) : DState × String × String :=
+  let tb' := Tickit.TermBuf.flush (Tickit.SgrBuf.clear st.tb)
+  let mobs := if st.dead then "ub after-overflow" else s!"b={bytesHexN (Tickit.SgrBuf.received tb')} pen={showPen st.cache}"
+  let (vt', sv) : VT × String :=
+    match (field? (toks impl) "b").bind hexBytes? with
+    | some bs =>
+      let bytes := bs.map (·.toNat)
+      let vt' := run bytes st.vt
+      let s := specAfter st vt' st.logical bytes false
+      (vt', if s = "" then "" else "after flush (all output of the requests so far delivered, in the order the output function received it): " ++ s)
+    | none => (st.vt, if impl.startsWith "CRASH" then s!"the implementation aborted under the sanitizers ({impl})"
+                      else s!"no bytes to interpret: implementation said '{impl}'")
+  ({ st with vt := vt', tb := tb' }, mobs, sv)
+
 /-- `print <word>`: text between pen requests. -/
 def printOp (st : DState) (word : String) (impl : String) : DState × String × String :=
   let text := word.toUTF8.toList.map (·.toNat)
   if st.mode = "x" then
-    let mobs := if st.dead then "ub after-overflow" else s!"b={bytesHexN text} pen={showPen st.cache}"
+    let tb' := if st.dead then st.tb else Tickit.SgrBuf.write (Tickit.SgrBuf.clear st.tb) text
+    let mobs := if st.dead then "ub after-overflow" else s!"b={bytesHexN (Tickit.SgrBuf.received tb')} pen={showPen st.cache}"
     let (vt', sv) : VT × String :=
       match (field? (toks impl) "b").bind hexBytes? with
       | some bs =>
         let bytes := bs.map (·.toNat)
         let vt' := run bytes st.vt
-        let s := specAfter st vt' st.logical bytes false
+        let s := if st.buffered then "" else specAfter st vt' st.logical bytes false
         (vt', if s = "" then "" else "after printing text: " ++ s)
       | none => (st.vt, if impl.startsWith "CRASH" then s!"the implementation aborted under the sanitizers ({impl})" else "")
-    ({ st with vt := vt' }, mobs, sv)
+    ({ st with vt := vt', tb := tb' }, mobs, sv)
   else
     (st, s!"t={bytesHexN text} pen={showPen st.cache}",
       if impl.startsWith "CRASH" then s!"the implementation aborted under the sanitizers ({impl})" else "")
@@ -302,6 +355,12 @@ def stepBase (st : DState) (ts : List String) (impl : String) : DState × String
     else (st, "bad-op", "")
   | ["suspend"] =>
     if st.mode ≠ "x" ∧ st.mode ≠ "g" then (st, "bad-op", "") else suspendOp st impl
+  | ["flush"] => if st.mode ≠ "x" then (st, "bad-op", "") else flushOp st impl
+  | ["outbuf", n] =>
+    if st.mode ≠ "x" then (st, "bad-op", "") else
+    match int? n with
+    | some k => outbufOp st k.toNat impl
+    | none => (st, "bad-op", "")
   | ["print", word] =>
     if st.mode ≠ "x" ∧ st.mode ≠ "g" then (st, "bad-op", "") else printOp st word impl
   | [opname, pen] =>
